@@ -340,6 +340,15 @@ class Struct(metaclass=MetaStruct):
             self._buffer.update_from_xbuffer(
                 self._offset, value._buffer, value._offset, value._size
             )
+            # the value may split the same total size differently among the
+            # dynamic fields: re-read the offsets cached in this handle
+            # (a new dict: the old one may be shared with other handles)
+            self._offsets = {
+                field.index: Int64._from_buffer(
+                    self._buffer, self._offset + field.offset
+                )
+                for field in self._d_fields
+            }
         else:
             for field in self._fields:
                 if field.name in value:
